@@ -269,22 +269,25 @@ def rule_w3(ctx: Ctx) -> None:
     if st_ is None or ld is None:
         raise AnalysisError("store_dfa_for_perm / load_dfa_for_perm vanished")
 
-    def path_exprs(fi: FuncInfo) -> Dict[str, str]:
-        out = {}
-        for s in fi.body:
-            if isinstance(s, ast.Assign) and isinstance(s.targets[0], ast.Name) and s.targets[0].id in ("directory", "filename"):
-                out[s.targets[0].id] = unparse(s.value).replace(fi.params[1], "$perm")
-        joins = [unparse(s.value) for s in fi.body if isinstance(s, ast.Assign) and unparse(s.targets[0]) == "path"]
-        out["path"] = " ; ".join(joins)
-        return out
+    from ..core import inlined_text
 
-    a, b = path_exprs(st_), path_exprs(ld)
-    if a.get("directory") and a.get("directory") == b.get("directory") and a.get("filename") and a.get("filename") == b.get("filename") and a["path"] == b["path"]:
-        ctx.ok("C20-W3", ld.where, f"store and load address the same file: {a['directory']} / {a['filename']}", ld.node, ld)
+    def opened_path(fi: FuncInfo) -> str:
+        opens = [n for n in walk_no_nested(fi.node) if isinstance(n, ast.Call) and call_name(n) == ("open",) and n.args]
+        if len(opens) != 1:
+            raise AnalysisError(f"{fi.where}: expected one open()")
+        import re as _re
+
+        txt = inlined_text(fi, opens[0].args[0])
+        # comprehension variables are bound names, not locals: normalise them
+        txt = _re.sub(r"str\((\w+)\) for \1 in", "str(_) for _ in", txt)
+        return _re.sub(rf"\b{fi.params[1]}\b", "$perm", txt)
+
+    a, b = opened_path(st_), opened_path(ld)
+    if a == b:
+        ctx.ok("C20-W3", ld.where, f"store and load open the same path expression: {a}", ld.node, ld)
     else:
-        ctx.violation("C20-W3", ld, ld.node, f"store builds {a} but load builds {b}: an automaton stored for a permutation is not the one loaded for it")
-    # the file name must determine the permutation: digits joined with no separator are ambiguous beyond length 10, but the directory carries the length
-    if "len($perm)" in a.get("directory", "") :
+        ctx.violation("C20-W3", ld, ld.node, f"store opens `{a}` but load opens `{b}`: an automaton stored for a permutation is not the one loaded for it")
+    if "len($perm)" in a:
         ctx.ok("C20-W3", st_.where, "directory carries the length, file name the entries", st_.node, st_)
 
 
@@ -478,7 +481,16 @@ def sweep(ctx: Ctx):
     return {"shipped_pairs_validated": validated, "shipped_pairs_skipped": skipped}
 
 
+GENERIC_FILES = ['permuta/bisc/bisc.py', 'permuta/permutils/pin_words.py', 'permuta/bisc/perm_properties.py']
+
+
 def variants():
+    from ..selftest import generic_silent
+
+    return _variants() + generic_silent(GENERIC_FILES)
+
+
+def _variants():
     from ..selftest import V, insert_stmt, reformat_only, rename_local, replace_expr, replace_stmt
 
     BI, PW = "permuta/bisc/bisc.py", "permuta/permutils/pin_words.py"
